@@ -175,7 +175,7 @@ def _run_config(c):
     args = RHEOS[rheo]
     V = _Viol()
     stats = dict(calls=0, worst_identity=0.0, worst_ref=0.0, worst_classical=0.0, worst_array=0.0, worst_group=0.0,
-                 sign_admitted=0, sign_outside=0, exceptions=0)
+                 sign_admitted=0, sign_outside=0, exceptions=0, skipped_on_known_defect=0)
 
     calc_terms, collapse, efunc, ifunc = find_mode_manipulators(lmax, N, use_obl)
     inc_tab = ifunc(obl_val)
@@ -249,31 +249,49 @@ def _run_config(c):
             z &= ~(tab.ncoef == tab.m)
         return bool(z.any())
 
+    def predict_known_defect(spin, e, kw):
+        """Which of the two known defects (if any) the inputs of this call lie on: 'lossless' | 'newton' | None."""
+        n_ = kw.get('n_', n)
+        if rheo in ('elastic', 'off'):
+            scalar_love = not any(_is_arr(x) for x in (spin, n_, kw.get('eta_'), kw.get('mu_')))
+            return 'lossless' if scalar_love else None
+        if rheo != 'newton':
+            return None
+        same_obj = spin is None or ((not _is_arr(spin)) and (not _is_arr(n_)) and spin == n_)
+        s_ = n_ if spin is None else spin
+        ee = np.atleast_1d(np.asarray(e if e is not None else 0.0, dtype=float))
+        nn = np.atleast_1d(np.asarray(n_, dtype=float))
+        ss = np.atleast_1d(np.asarray(s_, dtype=float))
+        ob_k = kw.get('ob', obl)
+        oo = np.atleast_1d(np.asarray(ob_k if ob_k is not None else 0.0, dtype=float))
+        for i in range(max(len(ee), len(nn), len(ss), len(oo))):
+            ob_i = float(oo[i % len(oo)])
+            tb = table(float(ee[i % len(ee)]), None if (ob_k is None or ob_i == obl_val) else ob_i)
+            if zero_mode_kept(tb, float(nn[i % len(nn)]), float(ss[i % len(ss)]), same_obj):
+                return 'newton'
+        return None
+
+    known_hits = {'lossless': 0, 'newton': 0}
+    MAX_KNOWN_HITS = 2          # numba leaks every structure allocated before a raise (~0.1 MB per raising call here): once a known
+    #                             defect has been re-derived this often in a configuration, further calls *on the same defect's
+    #                             input family* are not executed (counted in skipped_on_known_defect); nothing is skipped otherwise
+
     def guarded(form, spin, e, **kw):
         """Call the code under test; an exception becomes a violation (narrowly classified) and returns None."""
+        pred = predict_known_defect(spin, e, kw)
+        if pred is not None and known_hits[pred] >= MAX_KNOWN_HITS:
+            stats['skipped_on_known_defect'] += 1
+            return None
         stats['calls'] += 1
         try:
             return call(spin, e, **kw)
         except Exception as ex:            # noqa: BLE001 -- exceptions of the code under test are the subject
             stats['exceptions'] += 1
             n_ = kw.get('n_', n)
-            scalar_love = not any(_is_arr(x) for x in (spin, n_, kw.get('eta_'), kw.get('mu_')))
-            same_obj = spin is None or ((not _is_arr(spin)) and (not _is_arr(n_)) and spin == n_)
             s_ = n_ if spin is None else spin
-            kept = False
-            if rheo == 'newton':
-                ee = np.atleast_1d(np.asarray(e, dtype=float))
-                nn = np.atleast_1d(np.asarray(n_, dtype=float))
-                ss = np.atleast_1d(np.asarray(s_, dtype=float))
-                ob_k = kw.get('ob', obl)
-                oo = np.atleast_1d(np.asarray(ob_k if ob_k is not None else 0.0, dtype=float))
-                L = max(len(ee), len(nn), len(ss), len(oo))
-                for i in range(L):
-                    tb = ms.ModeTable(efunc(float(ee[i % len(ee)])), ifunc(float(oo[i % len(oo)])), lmax)
-                    if zero_mode_kept(tb, float(nn[i % len(nn)]), float(ss[i % len(ss)]), same_obj):
-                        kept = True
-                        break
-            site = _classify_exception(ex, entry, rheo, scalar_love, kept)
+            site = _classify_exception(ex, entry, rheo, pred == 'lossless', pred == 'newton')
+            if site.endswith(('lossless-body-float-love-number', 'newton-zero-frequency-mode')):
+                known_hits[pred] += 1
             V.add(site, dict(form=form, spin_over_n=_ratio(s_, n_), e=e, msg=str(ex)[:200]))
             return None
 
@@ -386,6 +404,8 @@ def _run_config(c):
         for sr in SR:
             s_ = sr * n
             for e in (EE[-1:] if len(EE) > 1 else EE):          # key structure does not depend on e; values checked at the largest e
+                if predict_known_defect(s_, e, {}) is not None:
+                    continue                                      # reported by the scalar grid
                 stats['calls'] += 1
                 try:
                     d = call_direct(s_, e, want_terms=True)
@@ -574,11 +594,12 @@ def run(ctx):
         cfg = (v.get('detail') or {}).get('config')
         if cfg and 'only_config' not in v['case']:
             v['case'] = dict(v['case'], only_config=cfg)
-    ctx.coverage.update(real_calls=agg.get('calls', 0), calls_raising=agg.get('exceptions', 0), bundles=len(cs), configurations_per_bundle=ncfg,
+    ctx.coverage.update(real_calls=agg.get('calls', 0), calls_raising=agg.get('exceptions', 0),
+                        calls_not_executed_after_known_defect_rederived=agg.get('skipped_on_known_defect', 0), bundles=len(cs), configurations_per_bundle=ncfg,
                         worst_identity_residual=agg.get('worst_identity'), worst_reference_residual=agg.get('worst_ref'),
                         worst_classical_limit_residual=agg.get('worst_classical'), worst_array_vs_scalar=agg.get('worst_array'),
                         worst_grouped_term_residual=agg.get('worst_group'), tolerance=TOL, tolerance_array=TOL_ARR,
                         sign_oracle_admitted=agg.get('sign_admitted', 0), sign_oracle_outside_validity=agg.get('sign_outside', 0))
-    ctx.note('configurations={n} calls={calls} raising={exceptions} worst: identity {worst_identity:.1e} reference {worst_ref:.1e} classical '
+    ctx.note('configurations={n} calls={calls} raising={exceptions} not executed on a re-derived known defect={skipped_on_known_defect} worst: identity {worst_identity:.1e} reference {worst_ref:.1e} classical '
              '{worst_classical:.1e} array {worst_array:.1e} grouped {worst_group:.1e}; sign oracle admitted {sign_admitted} / outside validity '
              '{sign_outside}'.format(n=len(cs) * ncfg, **agg))
